@@ -275,7 +275,8 @@ def run(ck, m):
     sbi, tm = fsw
     sends = repl.sending_blocks(m, fb)
     arms = {v: {x for x in fb.reachable() if fb.dominates(tb, x)} for v, tb in tm.items()}
-    sec = [x for x in sends if x in arms.get('Secoundary', ())]
+    from_sec = fb.reach_from([tm['Secoundary']], stop=lambda q: q == sbi, include_start=True) if 'Secoundary' in tm else set()
+    sec = [x for x in sends if x in arms.get('Secoundary', ()) or x in from_sec]
     outside = [x for x in sends if not any(x in a for a in arms.values())]
     ck.ob('C04.e', short(fb.id), 'secondary-arm-sends-nothing', not sec and not outside,
           'the fan-out sends only in its Primary / StartingUp arms' if not sec and not outside else
